@@ -26,13 +26,16 @@ Record rm_facts := mkRm {
   nested_tested : nested_arg; (* removeFileWithContext: removeWithExclusionPatterns(ctx, Join(dir, f), f, patterns...) *)
   nested_patterns : bool;     (* ... with the patterns *)
   rm_path_cleaned : bool      (* dir = filepath.Clean(dir) after the empty-path test and before Lstat: the path is taken as a NAME, so that a
-                                 trailing separator or "/." cannot make Lstat / Remove act on the target of a link *)
+                                 trailing separator or "/." cannot make Lstat / Remove act on the target of a link *);
+  rm_lstat_fail_closed : bool (* an error of Lstat other than "does not exist" is returned: no Stat-based test runs when it is not known
+                                 whether dir is a link *)
 }.
 
 (* garbageCollect *)
 Record gc_facts := mkGc {
   gc_link_first : bool;       (* under deletePath: Lstat(path) + IsSymLink before IsDir, and a link goes to garbageCollectFile (return) *)
-  gc_exists_first : bool      (* Exists(path) is tested before anything is done *)
+  gc_exists_first : bool;     (* Exists(path) is tested before anything is done *)
+  gc_lstat_fail_closed : bool (* an error of Lstat other than "does not exist" is returned instead of going on to IsDir *)
 }.
 
 (* VFS.RemoveWithPrivileges and platform.RemoveWithPrivileges / removeFileAs / removeDirAs (posix) *)
@@ -41,12 +44,19 @@ Record priv_facts := mkPriv {
   pv_chown_recursive : bool;     (* ChangeOwnershipRecursively instead of ChangeOwnership *)
   pv_force_passes_path : bool;   (* rm ... "--", path *)
   pv_force_resolves_links : bool;(* the forced removal resolves the path first (EvalSymlinks) *)
-  pv_path_cleaned : bool         (* a non-empty dir is cleaned first: same name for the ownership guard and the forced removal *)
+  pv_path_cleaned : bool;        (* a non-empty dir is cleaned first: same name for the ownership guard and the forced removal *)
+  pv_guard_fail_closed : bool    (* ownership is taken only when Lstat SUCCEEDED and says "not a link" *)
 }.
 
-Definition expected_rm : rm_facts := mkRm true true TTested true true true true true TTested true true true NName true true.
-Definition expected_gc : gc_facts := mkGc true true.
-Definition expected_priv : priv_facts := mkPriv true false true false true.
+(* exclusion.go *)
+Record ex_facts := mkEx {
+  ex_stateless : bool            (* NewExclusionRegexList compiles the patterns of THIS call: no package-level state, no memo *)
+}.
+
+Definition expected_rm : rm_facts := mkRm true true TTested true true true true true TTested true true true NName true true true.
+Definition expected_gc : gc_facts := mkGc true true true.
+Definition expected_priv : priv_facts := mkPriv true false true false true true.
+Definition expected_ex : ex_facts := mkEx true.
 
 Definition excl_arg_eqb (a b : excl_arg) : bool :=
   match a, b with TTested, TTested | TDir, TDir | TNone, TNone => true | _, _ => false end.
@@ -59,22 +69,26 @@ Definition rm_ok (k : rm_facts) : bool :=
   Bool.eqb (rm_link_returns k) true && Bool.eqb (rm_clean_err_first k) true && Bool.eqb (rm_clean_patterns k) true &&
   Bool.eqb (rm_stop_nonempty k) true && Bool.eqb (rm_final_ctx k) true && excl_arg_eqb (rm_final_excl k) TTested &&
   Bool.eqb (cl_ls_filtered k) true && Bool.eqb (cl_stop_on_error k) true && Bool.eqb (cl_loop_patterns k) true &&
-  nested_arg_eqb (nested_tested k) NName && Bool.eqb (nested_patterns k) true && Bool.eqb (rm_path_cleaned k) true.
-Definition gc_ok (k : gc_facts) : bool := Bool.eqb (gc_link_first k) true && Bool.eqb (gc_exists_first k) true.
+  nested_arg_eqb (nested_tested k) NName && Bool.eqb (nested_patterns k) true && Bool.eqb (rm_path_cleaned k) true &&
+  Bool.eqb (rm_lstat_fail_closed k) true.
+Definition gc_ok (k : gc_facts) : bool :=
+  Bool.eqb (gc_link_first k) true && Bool.eqb (gc_exists_first k) true && Bool.eqb (gc_lstat_fail_closed k) true.
+Definition ex_ok (k : ex_facts) : bool := Bool.eqb (ex_stateless k) true.
 Definition priv_ok (k : priv_facts) : bool :=
   Bool.eqb (pv_link_guard k) true && Bool.eqb (pv_chown_recursive k) false &&
-  Bool.eqb (pv_force_passes_path k) true && Bool.eqb (pv_force_resolves_links k) false && Bool.eqb (pv_path_cleaned k) true.
+  Bool.eqb (pv_force_passes_path k) true && Bool.eqb (pv_force_resolves_links k) false && Bool.eqb (pv_path_cleaned k) true &&
+  Bool.eqb (pv_guard_fail_closed k) true.
 
 Lemma rm_ok_eq : forall k, rm_ok k = true -> k = expected_rm.
 Proof.
-  intros [a b c d e f g h i j k l m n o]. unfold rm_ok. simpl. intro H.
+  intros [a b c d e f g h i j k l m n o q]. unfold rm_ok. simpl. intro H.
   repeat (apply Bool.andb_true_iff in H; destruct H as [H ?]).
-  destruct a, b, d, e, f, g, h, j, k, l, n, o; try discriminate;
+  destruct a, b, d, e, f, g, h, j, k, l, n, o, q; try discriminate;
   destruct c; try discriminate; destruct i; try discriminate; destruct m; try discriminate; reflexivity.
 Qed.
 
 Lemma gc_ok_eq : forall k, gc_ok k = true -> k = expected_gc.
-Proof. intros [[] []]; simpl; intro H; try discriminate; reflexivity. Qed.
+Proof. intros [[] [] []]; simpl; intro H; try discriminate; reflexivity. Qed.
 
 Lemma priv_ok_eq : forall k, priv_ok k = true -> k = expected_priv.
-Proof. intros [[] [] [] [] []]; simpl; intro H; try discriminate; reflexivity. Qed.
+Proof. intros [[] [] [] [] [] []]; simpl; intro H; try discriminate; reflexivity. Qed.
